@@ -166,10 +166,10 @@ type c04World struct {
 	pending []*c04Pending
 	fresh   map[string]int64
 	// collected while one event runs
-	curDeliv []*c04PM
-	curErr   int
-	curDone  []*c04Pending
-	curResp  map[int]*pool.Message
+	curDeliv  []*c04PM
+	curErr    int
+	curDone   []*c04Pending
+	curResp   map[int]*pool.Message
 	blockSeen bool
 }
 
